@@ -64,6 +64,9 @@ func (d *DatasourceExecuting) Run(ctx ExecutionContext, produce ProduceFn, metaS
 		for i, columnIndex := range indicesToRead {
 			str := row[columnIndex]
 			if str == "" {
+				if octosql.Null.Is(d.fields[i].Type) != octosql.TypeRelationIs {
+					return fmt.Errorf("empty value in column '%s', whose inferred type %s is not nullable (the schema is inferred from the beginning of the file)", d.fields[i].Name, d.fields[i].Type)
+				}
 				values[i] = octosql.NewNull()
 				continue
 			}
@@ -108,6 +111,9 @@ func (d *DatasourceExecuting) Run(ctx ExecutionContext, produce ProduceFn, metaS
 				}
 			}
 
+			if octosql.String.Is(d.fields[i].Type) != octosql.TypeRelationIs {
+				return fmt.Errorf("value '%s' in column '%s' doesn't match its inferred type %s (the schema is inferred from the beginning of the file)", str, d.fields[i].Name, d.fields[i].Type)
+			}
 			values[i] = octosql.NewString(str)
 		}
 
